@@ -102,3 +102,10 @@ Section WithOracle.
       apply accepted_len_nat in E. destruct E as [d Hd]. exfalso. exact (H d Hd).
   Qed.
 End WithOracle.
+
+Theorem svd_link n M sv :
+  is_svd n M sv ->
+  sv_norm_squared n sv = trG ROps n M /\ sv_kinv n sv = trG2 ROps n M /\ schmidt_of_sv n sv = schmidt_K ROps n M.
+Proof.
+  intros H. destruct (svd_power_sums n M sv H) as [E2 E4]. repeat split; try assumption. apply schmidt_of_sv_trace; assumption.
+Qed.
